@@ -58,7 +58,9 @@ class FileConfig:
         self.data[key] = try_conv(value, CONVERTERS)
 
     def __delitem__(self, key):
-        if key in self.data:
+        # Only user-set keys can be removed; built-in defaults live in the
+        # second map of the chain and deleting them would raise KeyError.
+        if key in self.data.maps[0]:
             del self.data[key]
 
     def __len__(self):
